@@ -154,6 +154,27 @@ func c13Mode(o *cli.Opts, run *evid.Run, bin, mode string) {
 		}
 		run.Stage(mode + "/" + prof.name)
 	}
+	// the same rounds once more on the plain (non -race) binary: the race runtime perturbs sync.Pool and
+	// scheduling, so behavioural cross-talk may only show without it
+	if pbin, err := proc.BuildBinary(o.Out, o.Scratch, o.Repo, false); err == nil {
+		env := []string{"VERIF_DELAYS=prove.afterRead=3:6,prove.afterDecode=20:20", fmt.Sprintf("VERIF_SEED=%d", o.Seed)}
+		if srv, err := startServer(pbin, ks, o, "c13-"+mode+"-plain", env); err == nil {
+			for rd := 0; rd < o.Pick(3, 12); rd++ {
+				rkey := fmt.Sprintf("%s/plain-binary/round%d", key, rd)
+				if run.Wants(rkey) {
+					c13Round(o, run, ks, srv, mode, rkey, []int{8, 16, 12}[rd%3], sigs)
+				}
+			}
+			if marks := srv.CrashMarks(); len(marks) > 0 {
+				run.Violate(key+"/plain-binary/crash-marks", fmt.Sprintf("server output carries crash marks %v", marks), map[string]any{"stderr_tail": tailStr(srv.Stderr(), 3000)})
+			}
+			srv.Signal(2)
+			if _, ok := srv.Wait(3 * time.Minute); !ok {
+				srv.Kill()
+			}
+			run.Stage(mode + "/plain-binary")
+		}
+	}
 	run.Add("distinct_interleavings", len(sigs))
 	total, dedup := countRaces(racePrefix)
 	run.Add("race_reports", total)
